@@ -4,7 +4,7 @@
    restore the scope stack; is the root of `x.f` looked up on the scope stack before the namespace table. *)
 From Coq Require Import String List NArith ZArith Bool.
 From Sylt Require Import Syntax.Resolved Resolve.PAst Resolve.Resolver Resolve.ResolveSpec Resolve.SpecProofs
-     Resolve.RefineRefuted Resolve.Alpha Resolve.AlphaProofs Resolve.AlphaExample Gen.GenResolve.
+     Resolve.RefineRefuted Resolve.RefineProofs Resolve.Alpha Resolve.AlphaProofs Resolve.AlphaExample Gen.GenResolve.
 Import ListNotations.
 Local Open Scope string_scope.
 
@@ -43,12 +43,24 @@ Theorem C09_resolve_refines_refuted :
   all_restore fl = false -> exists ast, is_ok (resolve fl ast) = true /\ resolve fl ast <> resolve_spec ast.
 Proof. exact (resolve_refines_refuted fl). Qed.
 
-(* For the resolver with all four flags on the statement is NOT proved here; the tie compares the
-   two functions on every input of the run (corpus, /repo/tests, generated programs): no difference.
-   (Loop bodies that are definitions and top-level statements that are not definitions do not come out
-   of the parser and are excluded.) *)
-Definition C09_resolve_refines_statement : Prop :=
-  forall ast, resolve (mkFlags true true true true) ast = resolve_spec ast.
+(* PROVED for the resolver with all four flags on, on every well-formed AST (`wf_ast`: what the parser
+   produces -- a loop body is never a definition; top-level statements are definitions, blobs, enums,
+   use / from-use or empty statements): the stack discipline of the code computes exactly the scope-list
+   specification -- same variable table, same statements, same first error.  It applies to the code as
+   soon as the regenerated flags are all on (all_restore fl = true). *)
+Theorem C09_resolve_refines :
+  all_restore fl = true -> forall ast, wf_ast ast = true -> resolve fl ast = resolve_spec ast.
+Proof. exact (resolve_refines_when_restored fl). Qed.
+
+Theorem C09_resolve_refines_restored :
+  forall ast, wf_ast ast = true -> resolve (mkFlags true true true true) ast = resolve_spec ast.
+Proof. exact resolve_refines. Qed.
+
+(* non-vacuity: a well-formed program that both accept *)
+Example C09_resolve_refines_example :
+  wf_ast ex_left = true /\ is_ok (resolve_spec ex_left) = true
+  /\ wf_ast w_if = true /\ wf_ast w_case = true /\ wf_ast w_else = true /\ wf_ast w_nsfield = true.
+Proof. vm_compute. repeat split. Qed.
 
 (* alpha: for an injective renaming g of global names that fixes "start", two programs related by a
    consistent renaming of their binders (Resolve/Alpha.v: `alpha_ast`, stated for the scoping discipline
@@ -89,6 +101,8 @@ Print Assumptions C09_spec_innermost.
 Print Assumptions C09_spec_local.
 Print Assumptions C09_spec_global.
 Print Assumptions C09_resolve_refines_refuted.
+Print Assumptions C09_resolve_refines.
+Print Assumptions C09_resolve_refines_restored.
 Print Assumptions C09_alpha.
 Print Assumptions C09_alpha_example.
 Print Assumptions C09_alpha_lexical_refuted.
